@@ -36,6 +36,7 @@ type AddIn struct {
 	TPause []bool    `json:"tpause,omitempty"`
 	Raw    bool      `json:"raw,omitempty"`    // e2eadd: the first block's ChannelStats is the receiver
 	Blocks []*GE2e   `json:"blocks,omitempty"` // e2eadd: one e2e block per node (nil: none)
+	HandNil int      `json:"hand_nil,omitempty"` // e2eadd, raw: nil maps put in front of the receiver's entries by hand
 	Name   string    `json:"name"`
 }
 
@@ -177,7 +178,7 @@ func runAddFn(o *lib.Out, r *lib.Rand, n int, replay string) {
 	for _, in := range e2eMatrix(r, 2*n) {
 		runAddCase(o, in)
 	}
-	genIdle, genPctSet = false, []int{0, 1}
+	genIdle, genNullish, genPctSet = false, false, []int{0, 1}
 	alphabet := []string{"a", "b", "c", "A", "", "a ", "orders", "events", "orders"}
 	randList := func(max int) []string {
 		k := r.Intn(max + 1)
@@ -235,6 +236,10 @@ type HostileIn struct {
 	Topics string `json:"topics,omitempty"` // served for /topics
 	Info   string `json:"info,omitempty"`
 	Paths  []string `json:"paths,omitempty"`
+	// a corpus entry that is a whole cluster for the view profile's in-process nsqadmin (the
+	// corpus file has one driver): run as runCluster runs it, judged as a view case
+	Cluster *GCluster `json:"cluster,omitempty"`
+	Views   []string  `json:"views,omitempty"`
 }
 
 type subAdmin struct {
@@ -495,7 +500,24 @@ func runHostile(o *lib.Out, r *lib.Rand, n int, replay string) {
 	if replay != "" {
 		var ins []HostileIn
 		lib.ReadReplay(replay, &ins)
+		var cl *cluster
 		for _, in := range ins {
+			if in.Cluster != nil {
+				if cl == nil {
+					cl = newCluster()
+				}
+				in := in
+				viewInputWrap = func(g GCluster) interface{} {
+					v := ""
+					if i := strings.LastIndex(g.Name, "/"); i >= 0 {
+						v, g.Name = g.Name[i+1:], g.Name[:i]
+					}
+					return HostileIn{Name: in.Name, Mode: in.Mode, Cluster: &g, Views: []string{v}}
+				}
+				runCluster(o, cl, *in.Cluster, in.Views)
+				viewInputWrap = nil
+				continue
+			}
 			h.run(o, in)
 		}
 		return
